@@ -815,12 +815,14 @@ def run_case(case):
                 return obs
             raise HarnessError("C20: behave rejected the command line %r (exit %s): %s"
                                % (argv, e.code, out.getvalue()[-400:]))
-        except Exception as e:
-            expected_crash = (any(o.get("lead") for f in case["files"] for o in f["opts"])
-                              or (argv and argv[-1] == "--color"))
-            if not expected_crash:
-                raise
-            obs.crash = "%s: %s" % (type(e).__name__, str(e).splitlines()[0][:200] if str(e) else "")
+        except Exception as e:      # the command line and the files are valid by construction
+            import traceback
+            frames = traceback.extract_tb(e.__traceback__)
+            where = ["%s:%d" % (os.path.basename(fr.filename), fr.lineno) for fr in frames
+                     if os.sep + "behave" + os.sep in fr.filename]
+            obs.crash = "%s: %s (%s)" % (type(e).__name__, str(e).splitlines()[0][:200] if str(e) else "",
+                                         " > ".join(where[-2:]))
+            obs.crash_type = type(e).__name__
             return obs
         a = {}
         for d in list(BOOLS) + list(SCALARS) + ["format", "outfiles", "paths", "name", "default_tags", "tags",
@@ -906,8 +908,10 @@ def check(case):
             res.fail("C20.file.list-values-on-new-lines",
                      "sequence option(s) %s written with all values on new lines below the key: %s; %s"
                      % (leads, obs.crash, what))
-        else:
+        elif argv and argv[-1] == "--color" and getattr(obs, "crash_type", "") == "IndexError":
             res.fail("C20.cli.bare-color-crash", "'--color' as last argument: %s; %s" % (obs.crash, what))
+        else:
+            res.fail("C20.construct-error", "Configuration(argv) raises %s on valid input; %s" % (obs.crash, what))
         _labels(res, case, exp, fv, cv)
         return res
 
@@ -1267,6 +1271,8 @@ def case_st(draw, toml_ok=True, focus="options"):
     for d in fdests:
         if d in CLI_DESTS and draw(st.integers(0, 99)) < (60 if focus == "options" else 30):
             chosen.append(d)
+    if ("tags" in fdests or "default_tags" in fdests) and "tags" not in chosen and draw(st.integers(0, 1)) == 0:
+        chosen.append("tags")
     extra = draw(st.lists(st.sampled_from(CLI_DESTS), max_size=4 if focus == "options" else 1, unique=True))
     for d in extra:
         if d not in chosen:
@@ -1346,8 +1352,10 @@ def define_enumeration():
               "\"k='v'\"", "'k=\"v\"'", "k= 'v' "]
     for form in (0, 2):
         for text in texts:
-            yield {"kind": "cfg", "layout": "sep", "files": [_one_file("behave.ini", [], [["key", "0"]])],
-                   "cli": [{"d": "define", "v": text, "f": form}], "gets": gets}
+            yield {"kind": "cfg", "layout": "sep", "files": [], "cli": [{"d": "define", "v": text, "f": form}]}
+    for text in texts:
+        yield {"kind": "cfg", "layout": "sep", "files": [_one_file("behave.ini", [], [["key", "0"]])],
+               "cli": [{"d": "define", "v": text, "f": 1}], "gets": gets}
 
 
 def getter_enumeration():
